@@ -24,6 +24,9 @@ SPEC = dict(
         ref="DESIGN.md §6 C14, Appendix C"),
     imports="From Ship Require Import Base Timer.\nFrom ShipGen Require Import TimerTable.",
     case_type="c14_case", check_fn="check_c14",
+    streams=[dict(imports="From Ship Require Import Base Conn ConnData ConnMon ConnCheck.", case_type="conn_case", check_fn="check_C14conn",
+                  drivers=[dict(bin="shipdrv", args=["-prop", "conn"], n_quick=1000, n_thorough=20000, timeout=2400)],
+                  codes={80: "timer_left_armed_by_a_finished_phase"})],
     drivers=[dict(bin="timerdrv", args=["-prop", "C14"], n_quick=3000, n_thorough=60000, timeout=900)],
     codes={10: "stopped_immediately_after_arm_fired", 11: "stopped_timer_fired", 12: "replaced_timer_fired",
            13: "fired_twice", 14: "delivered_without_expiry", 15: "armed_timer_never_fired",
